@@ -2,6 +2,9 @@ package portforwarding
 
 // C18 — port-forward requests (toBytes / readPacket) round-trip; an address
 // that does not fit the two-byte length is rejected instead of mis-framed.
+// Every decode is repeated with the same bytes delivered in pieces
+// (wire.Delivery: short reads, (0, nil) results, end-of-stream reported with the
+// last bytes) and must give the same result.
 
 import (
 	"bytes"
@@ -26,6 +29,26 @@ type c18PF struct {
 	Port int    `json:"port"` // any int: ParseForward takes strconv.Atoi of the argument
 	Len  int    `json:"len"`  // unix socket path length
 	Seed uint64 `json:"seed"`
+	// how the bytes are handed to readPacket the second time (zero value: in one piece only)
+	Dlv wire.Delivery `json:"dlv"`
+}
+
+// c18PFRedeliver: readPacket on the same bytes under the delivery pattern d.
+func c18PFRedeliver(v *vlib.Verdict, in []byte, sentinel bool, d wire.Delivery, accepted bool, consumed int, addr net.Addr, fwd byte) {
+	wire.Redeliver(v, "C18", "portforwarding.readPacket", in, sentinel, d, accepted, consumed, func(st *wire.Stream) (string, string, error) {
+		a, f, err := readPacket(st)
+		switch {
+		case err != nil:
+			return "", "", err
+		case !accepted:
+			return "", "", nil
+		case !c18AddrEq(addr, a):
+			return "addr", fmt.Sprintf("%s instead of %s", c18AddrStr(a), c18AddrStr(addr)), nil
+		case f != fwd:
+			return "fwdType", fmt.Sprintf("%d instead of %d", f, fwd), nil
+		}
+		return "", "", nil
+	})
 }
 
 func (c c18PF) addr() net.Addr {
@@ -118,6 +141,7 @@ func c18PFRunA(c c18PF, v *vlib.Verdict) {
 		if !fits {
 			v.Label("beyond-assumed-limit-but-round-trips")
 		}
+		c18PFRedeliver(v, enc, true, c.Dlv, true, len(enc), got, gFwd)
 		return
 	}
 	what := fmt.Sprintf("readPacket err=%v addr=%s fwdType=%d, consumed %d of %d bytes", derr, c18AddrStr(got), gFwd, st.Consumed, len(enc))
@@ -138,7 +162,7 @@ func c18PFRunA(c c18PF, v *vlib.Verdict) {
 var c18IPs = []string{"", "127.0.0.1", "0.0.0.0", "255.255.255.255", "10.1.2.3", "::1", "::", "2001:db8::1", "fe80::1", "::ffff:1.2.3.4", "ffff:ffff:ffff:ffff:ffff:ffff:ffff:ffff"}
 
 func c18PFGen(t *rapid.T) c18PF {
-	c := c18PF{Net: rapid.IntRange(1, 3).Draw(t, "net"), Seed: rapid.Uint64().Draw(t, "seed")}
+	c := c18PF{Net: rapid.IntRange(1, 3).Draw(t, "net"), Seed: rapid.Uint64().Draw(t, "seed"), Dlv: wire.DrawDelivery(t)}
 	if rapid.Bool().Draw(t, "knownfwd") {
 		c.Fwd = rapid.SampledFrom([]int{PfLocal, PfRemote}).Draw(t, "fwd")
 	} else {
@@ -196,16 +220,20 @@ func c18PFRunB(c c18PFB, v *vlib.Verdict) {
 	enc := []byte{byte(base.Net), byte(base.Fwd), byte(len(text) >> 8), byte(len(text))}
 	enc = append(enc, text...)
 	in := wire.Mutate(enc, []wire.Field{{Off: 0, Width: 1}, {Off: 1, Width: 1}, {Off: 2, Width: 2}, {Off: 2, Width: 2}}, c.Muts, 0)
-	c18PFBytesB(in, v)
+	c18PFBytesB(in, c.Base.Dlv, v)
 }
 
-// c18PFBytesB: decode -> encode -> decode on raw bytes.
-func c18PFBytesB(in []byte, v *vlib.Verdict) {
+// c18PFBytesB: decode -> encode -> decode on raw bytes. dlv: the delivery
+// pattern under which the bytes are decoded once more.
+func c18PFBytesB(in []byte, dlv wire.Delivery, v *vlib.Verdict) {
 	st := &wire.Stream{Data: in}
 	var a1 net.Addr
 	var f1 byte
 	var err error
 	if vlib.Guard(v, func() { a1, f1, err = readPacket(st) }) {
+		return
+	}
+	if c18PFRedeliver(v, in, false, dlv, err == nil, st.Consumed, a1, f1); !v.OK() {
 		return
 	}
 	if err != nil {
@@ -272,7 +300,7 @@ func FuzzVerifC18PFPacket(f *testing.F) {
 	f.Add(append([]byte{PfUNIX, PfRemote, 0, 6}, "/tmp/s"...))
 	f.Fuzz(func(t *testing.T, in []byte) {
 		var v vlib.Verdict
-		c18PFBytesB(in, &v)
+		c18PFBytesB(in, wire.DeliveryFor(wire.Hash64(in)), &v)
 		for _, vi := range v.Violations {
 			if !vlib.KnownOpen(vi.Sig) {
 				t.Fatalf("VERIF-VIOLATION sig=%s detail=%s", vi.Sig, vi.Detail)
